@@ -305,8 +305,107 @@ struct St {
     shapes: BTreeSet<String>,
 }
 
+/// The reporter task (`spawn_metric_reporter`): histories of {increment 1 / 5, set the gauge,
+/// record a sample, let the runtime poll its tasks, let one publish interval pass} ending with
+/// `shutdown().await`, on a paused current-thread runtime. Everything reported over all readouts
+/// (periodic ones and the final one at shutdown) must add up to what was recorded.
+fn reporter_histories(rep: &mut Report) -> u64 {
+    use metrique_metricsrs::MetricReporterBuilder;
+    use metrique_writer::test_util::test_entry_sink;
+    #[derive(Clone, Copy, Debug, PartialEq)]
+    enum Ev {
+        Inc(u64),
+        Gauge(u32),
+        Sample(u32),
+        Yield,
+        Interval,
+    }
+    let alphabet = [Ev::Inc(1), Ev::Inc(5), Ev::Gauge(3), Ev::Sample(20), Ev::Yield, Ev::Interval];
+    let depth: u32 = rep.tier.pick(4, 5);
+    let n = alphabet.len() as u64;
+    let mut total = 1u64; // the empty history
+    for d in 1..=depth {
+        total += n.pow(d);
+    }
+    let states = par::for_each_index(total, 64, Violations::default, |v, idx0| {
+        let mut seq: Vec<Ev> = Vec::new();
+        if idx0 > 0 {
+            let mut idx = idx0 - 1;
+            let mut len = 1u32;
+            while idx >= n.pow(len) {
+                idx -= n.pow(len);
+                len += 1;
+            }
+            for _ in 0..len {
+                seq.push(alphabet[(idx % n) as usize]);
+                idx /= n;
+            }
+        }
+        let rt = tokio::runtime::Builder::new_current_thread().enable_time().start_paused(true).build().expect("runtime");
+        let t = test_entry_sink();
+        let inspector = t.inspector;
+        let (mut want_c, mut want_g, mut want_h) = (0u64, None::<f64>, 0u64);
+        rt.block_on(async {
+            let (reporter, recorder) = MetricReporterBuilder::new()
+                .metrics_publish_interval(std::time::Duration::from_secs(60))
+                .metrics_sink((t.sink, ()))
+                .metrics_rs_version::<dyn metrics_024::Recorder>()
+                .build_without_installing();
+            for ev in &seq {
+                match *ev {
+                    Ev::Inc(k) => {
+                        metrics_024::with_local_recorder(&recorder, || metrics_024::counter!("c").increment(k));
+                        want_c += k;
+                    }
+                    Ev::Gauge(x) => {
+                        metrics_024::with_local_recorder(&recorder, || metrics_024::gauge!("g").set(x as f64));
+                        want_g = Some(x as f64);
+                    }
+                    Ev::Sample(x) => {
+                        metrics_024::with_local_recorder(&recorder, || metrics_024::histogram!("h").record(x as f64));
+                        want_h += 1;
+                    }
+                    Ev::Yield => tokio::task::yield_now().await,
+                    Ev::Interval => tokio::time::sleep(std::time::Duration::from_secs(61)).await,
+                }
+            }
+            reporter.shutdown().await;
+        });
+        let (mut got_c, mut got_g, mut got_h) = (0u64, None::<f64>, 0u64);
+        for e in inspector.entries() {
+            if let Some(m) = e.metrics.get("c") {
+                got_c += m.distribution.iter().map(|o| if let Observation::Unsigned(u) = o { *u } else { 0 }).sum::<u64>();
+            }
+            if let Some(m) = e.metrics.get("g") {
+                got_g = Some(m.as_f64());
+            }
+            if let Some(m) = e.metrics.get("h") {
+                got_h += m.num_observations();
+            }
+        }
+        let replay = || json!({"reporter_history": seq.iter().map(|e| format!("{e:?}")).collect::<Vec<_>>(), "then": "shutdown().await",
+            "counter": {"incremented": want_c, "reported": got_c}, "gauge": {"last_set": want_g, "last_reported": got_g}, "histogram": {"recorded": want_h, "reported": got_h}});
+        if got_c != want_c {
+            v.add("reporter:counter-increments-not-reported-exactly-once", format!("after {seq:?} and shutdown the readouts report {got_c} of {want_c} increments"), replay());
+        }
+        if got_h != want_h {
+            v.add("reporter:histogram-samples-not-reported-exactly-once", format!("after {seq:?} and shutdown the readouts report {got_h} of {want_h} samples"), replay());
+        }
+        if want_g.is_some() && got_g != want_g {
+            v.add("reporter:gauge-last-value-not-reported", format!("after {seq:?} and shutdown the last reported gauge value is {got_g:?}, last set {want_g:?}"), replay());
+        }
+    });
+    for v in states {
+        rep.violations.merge(v);
+    }
+    rep.set("reporter_histories", total);
+    rep.set("reporter_history_depth", depth as u64);
+    total
+}
+
 fn main() {
     let mut rep = Report::from_args("C20", "model_checking");
+    let reporter_runs = reporter_histories(&mut rep);
     let depth: usize = rep.tier.pick(5, 6);
     let alphabet = ops();
     let n = alphabet.len() as u64;
@@ -390,6 +489,7 @@ fn main() {
         shapes.extend(s.shapes);
         rep.violations.merge(s.v);
     }
+    let h_ = h_ + reporter_runs;
     rep.set("states", h_);
     rep.set("transitions", t);
     rep.set("traces_validated_against_impl", h_);
